@@ -78,6 +78,13 @@ def edit_outputs(sh, examples):
         if sh.over_budget():
             sh.skipped_budget += 1
             return
+        if n % 5 == 0:
+            case = mapping_case(random.Random(n))
+            fl, done = judge_mapping(case)
+            sh.record(case, done, ["mapping-then-cli", "op:" + case["op"][0]])
+            for sig, d in fl[:1]:
+                sh.fail(sig, case, d)
+            return
         g = c05.gen_case(n, kw=doc_kw, op_kw=op_kw, flags=flags)
         if g is None:
             return
@@ -108,6 +115,63 @@ def edit_outputs(sh, examples):
     prop()
 
 
+MAP_DOCS = [
+    "{\n  a = 1;\n  b = {\n    c = 2;\n  };\n}\n",
+    "{ pkgs }:\n{\n  a = 1;\n  b = {\n    c = 2;\n  };\n  d.e = 3;\n}\n",
+    "let\n  v = 1;\nin\n{\n  a = v;\n  b = {\n    c = 2;\n  };\n}\n",
+    "{ a = 1; b = { c = 2; }; }\n",
+    "stdenv.mkDerivation {\n  a = 1;\n  b = {\n    c = 2;\n  };\n}\n",
+]
+
+
+def _pyvalue(r, depth):
+    x = r.random()
+    if depth == 0 or x < 0.3:
+        return r.choice([1, 2, -3, "s", "two words", "multi\nline", True, None, 0.5])
+    if x < 0.7:
+        return [_pyvalue(r, depth - 1) for _ in range(r.choice([0, 1, 1, 2, 2, 3]))]
+    return {k: _pyvalue(r, depth - 1) for k in r.sample(["k1", "k2", "k3"], r.choice([0, 1, 2, 3]))}
+
+
+def mapping_case(r):
+    """Python values assigned through the mapping API, then a CLI edit on the same object: the emitted text."""
+    doc = r.choice(MAP_DOCS)
+    assigns = []
+    for _ in range(r.randint(1, 3)):
+        path = r.choice([["matrix"], ["a"], ["b", "c"], ["b", "new"], ["extra"]])
+        assigns.append([path, _pyvalue(r, r.choice([1, 2, 2, 3]))])
+    op = r.choice([["set", "zz", "1"], ["set", "b.q", "[ 1 2 ]"], ["rm", "a", None], ["set", "a", "{ x = 1; }"]])
+    return {"mapping": True, "doc": doc, "assigns": assigns, "op": op}
+
+
+def judge_mapping(case):
+    nima.reset_state()
+    try:
+        src = nima.parse(case["doc"])
+        for path, value in case["assigns"]:
+            obj = src
+            for k in path[:-1]:
+                obj = obj[k]
+            obj[path[-1]] = value
+        op, path, value = case["op"]
+        out = nima.set_value(src, path, value) if op == "set" else nima.remove_value(src, path)
+    except Exception:  # noqa: BLE001 - refusals and what the mapping accepts are C14/C08 matters
+        return [], False
+    if not cst.env_ok(out) or cst.parse(out).root.has_error:
+        return [], False
+    st2, out2 = RT.rebuild(out)
+    if st2 != "ok":
+        return [(f"edit-output-second-pass-{st2}|mapping-then-{op}", {"out": out[:400]})], True
+    if out2 != out:
+        i = next((k for k, (a, b) in enumerate(zip(out, out2)) if a != b), min(len(out), len(out2)))
+        return [(f"edit-output-not-fixed-point|mapping-then-{op}", {"at": i, "first": out[max(0, i - 40) : i + 40], "second": out2[max(0, i - 40) : i + 40], "out": out[:400]})], True
+    code, so, se, exc = nima.cli(["test"], out)
+    if exc is not None or (so, code) != ("OK\n", 0):
+        return [(f"edit-output-rejected-by-test|mapping-then-{op}", {"out": out[:300], "stdout": so})], True
+    return [], True
+
+
+
 def replay_edit(case):
     from vf.props import c05
 
@@ -134,6 +198,8 @@ def run_shard(sh):
 
 
 def replay(case):
+    if case.get("mapping"):
+        return judge_mapping(case)[0]
     if "ops" in case:
         return replay_edit(case)
     return RT.replay(case, CFG)
